@@ -632,3 +632,26 @@ def truncated_quotient(ctx, funcs: Iterable[FunctionInfo]) -> List[Tuple[Functio
             out.append((f, c, f"`{ast.unparse(c)[:60]}` truncates a float quotient: when the quotient of two decimal values lands one ulp below an "
                               f"integer (0.7/1e-3, 0.3/0.1) the result is one too small; round first (`int(np.round(..))`) or state the floor explicitly"))
     return out
+
+
+def implicit_relative_tolerance(ctx, funcs: Iterable[FunctionInfo]) -> List[Tuple[FunctionInfo, ast.AST, str]]:
+    """`np.allclose(a, b, atol=tol)` / `np.isclose(..., atol=tol)` / `math.isclose(..., abs_tol=tol)` with an explicit ABSOLUTE tolerance
+    but no relative one: the default relative tolerance (rtol=1e-5, rel_tol=1e-9) still applies and, for values of order 1, is the
+    larger of the two - the comparison accepts far more than the tolerance the call site names."""
+    out = []
+    for f in funcs:
+        for c in walk_shallow(f.node):
+            if not isinstance(c, ast.Call):
+                continue
+            cn = call_name(c)
+            kws = {k.arg for k in c.keywords}
+            if cn in ("allclose", "isclose") and isinstance(c.func, ast.Attribute):
+                npos = len(c.args)
+                has_atol = "atol" in kws or npos >= 4
+                has_rtol = "rtol" in kws or npos >= 3
+                if "abs_tol" in kws and "rel_tol" not in kws:
+                    out.append((f, c, f"`{ast.unparse(c)[:70]}` names abs_tol only: math.isclose still applies rel_tol=1e-9"))
+                elif has_atol and not has_rtol:
+                    out.append((f, c, f"`{ast.unparse(c)[:70]}` names an absolute tolerance only: the default rtol=1e-5 still applies and exceeds it for "
+                                      f"values of order 1, so the comparison is about 1e-5 wide whatever atol says"))
+    return out
